@@ -30,9 +30,22 @@ EXPLANATION = (
     "path returns the Deferred of filenode.read() and the last success callback on it answers None/empty (so the "
     "renderer writes nothing after the bytes read() wrote and finishes only when read() is done); (9) in "
     "render_GET/render_HEAD every path feasible for a request without t= goes through the FileDownloader or a "
-    "satisfied setETag conditional, never an explicit raise or another return.  Undecided: leniency of int() on "
-    "odd numerals, empty-file suffix ranges, the byte content delivered by filenode.read(), multipart responses "
-    "(first range only, as the code documents), which files get an ETag and its value (ETag / If-None-Match is "
+    "satisfied setETag conditional, never an explicit raise or another return; (10) the list parse_range_header "
+    "returns is parse_range applied to every element of the byte-range-set (the part behind the first '=' split at "
+    "every ','; comprehension, map or a list filled in a loop that cannot skip an element or be left early; only "
+    "empty elements may be filtered out), so a malformed or inverted spec anywhere in the set makes the whole header "
+    "ignored although only the first range is served; (11) for mutable files MutableFileVersion.read hands its "
+    "consumer, offset and size through _do_serialized/_read to Retrieve.download unchanged (argument binding, "
+    "positional or keyword); (12, rules C09.5/C09.8/C09.12/C09.18 adopted) the bytes Retrieve delivers for "
+    "(offset, size): the segments fetched are those holding the range, a decoded segment is cut to the tail length "
+    "exactly when it is the last segment of the FILE (segnum + 1 == num_segments, not the last segment of the read), "
+    "_set_segment cuts the first/last segment of the READ to the range, download() starts exactly that range.  "
+    "Undecided: leniency of int() on "
+    "odd numerals, empty-file suffix ranges, the byte content delivered by filenode.read() for immutable and literal "
+    "files (offset/size forwarding and slicing there are rules of C04/C01), zfec/AES of the mutable path, multipart "
+    "responses (first range only, as the code documents), a byte-range-set split at another separator or with a "
+    "maxsplit (reported as undecidable, not as a violation: int() refuses the ',' left in an element, so such a "
+    "header is ignored as a whole), which files get an ETag and its value (ETag / If-None-Match is "
     "outside RFC 7233 ranges; render_HEAD sets none), content-type / content-encoding / content-disposition / "
     "accept-ranges values (only HEAD = GET is decided for them), the t=json/info/uri representations, what "
     "humanize_exception / _finish in web/common.py do with WebError.code and with a None result, the error "
@@ -569,8 +582,12 @@ def run(ctx: Context):
 
         def protected(n):
             return any(lab == "exc" and d in hid for (d, lab) in cfg.succ[n.id])
+        def mentions_parse_range(n):
+            return not isinstance(n.ast, (ast.FunctionDef, ast.AsyncFunctionDef)) and any(
+                isinstance(x, ast.Name) and x.id == "parse_range" and isinstance(x.ctx, ast.Load)
+                for x in ast.walk(n.ast))
         must = [n for n in cfg.nodes if n.kind in ("stmt", "test") and (
-            has_call("parse_range", into_lambda=False)(n) or any(
+            has_call("parse_range", into_lambda=False)(n) or mentions_parse_range(n) or any(
                 call_tail(c) == "split" and nz(c.func.value) == param for c in node_calls(n)
                 if isinstance(c.func, ast.Attribute)))]
         if not must:
@@ -922,6 +939,401 @@ def run(ctx: Context):
             if not through:
                 r.violation(fn, fn.loc(), "no path of %s serves a request without t= through the FileDownloader" % meth)
             r.site(fn, fn.node, "dispatch on t=")
+
+    # ---------------------------------------------------------------- C40.10
+    with ctx.rule("C40.10", "R1/E2", "parse_range_header: the range list it returns is parse_range applied to EVERY "
+                  "element of the byte-range-set (the part after 'bytes=' split at every ','), so one malformed or "
+                  "inverted byte-range-spec anywhere in the set makes the whole header ignored", expected=1) as r:
+        _every_spec(r, prh)
+
+    # ---------------------------------------------------------------- C40.11
+    with ctx.rule("C40.11", "E2", "mutable files: MutableFileVersion.read(consumer, offset, size) reaches "
+                  "Retrieve.download with the same consumer, offset and size (through _do_serialized and _read)",
+                  expected=2) as r:
+        _mutable_read_forwarding(r, idx)
+
+    # ---------------------------------------------------------------- C40.12
+    # The body of a 206 answer for a mutable file is what Retrieve delivers for (offset, size): the segments fetched
+    # are those of the requested range, each decoded segment is cut to the length it has in the FILE (the tail length
+    # only for the file's last segment), the first / last segment of the READ are cut to the range, and download()
+    # starts exactly that range.  Those are rules of C09 (mutable segment arithmetic); they are adopted here because
+    # announced = served (C40.1) is void if the bytes behind read(offset, size) are not the announced ones.
+    ctx.include("C09", ["C09.5", "C09.8", "C09.12", "C09.18"], "C40.12")
+
+
+# ------------------------------------------------------------------ C40.10
+_STRIPS = ("strip", "lstrip", "rstrip")
+
+
+def _strip_unwrap(e):
+    """x.strip() / x.lstrip() / x.rstrip(..) -> x (whitespace around list elements is not significant)."""
+    while isinstance(e, ast.Call) and isinstance(e.func, ast.Attribute) and e.func.attr in _STRIPS and not e.keywords:
+        e = e.func.value
+    return e
+
+
+def _every_spec(r, prh):
+    cfg = prh.cfg()
+    fnorm = FlowNorm(prh)
+    param = first_positional_params(prh)[0]
+    pr = prh.nested.get("parse_range")
+    if pr is None:
+        raise AnchorVanished("parse_range_header.parse_range")
+    # the byte-range-set: everything behind the first '='
+    set_forms = {norm_src("%s.split('=', 1)[1]" % param), norm_src("%s.partition('=')[2]" % param)}
+
+    def is_parse_range(f):
+        return isinstance(f, ast.Name) and f.id == pr.name
+
+    def spec_of(call, target):
+        """'ok' when `call` is parse_range(<target, possibly stripped>); otherwise a description / None (undecided)."""
+        if not (isinstance(call, ast.Call) and is_parse_range(call.func)):
+            return None
+        a = arg(call, 0, first_positional_params(pr)[0])
+        if a is None:
+            return None
+        base = _strip_unwrap(a)
+        if isinstance(base, ast.Name) and base.id == target:
+            return "ok"
+        if target not in {x.id for x in ast.walk(a) if isinstance(x, ast.Name)}:
+            return "parse_range is applied to %s, not to the element of the byte-range-set" % ast.unparse(a)
+        return None
+
+    def set_base(node, x):
+        """True when x denotes the whole byte-range-set of the header."""
+        s = fnorm.norm(node, _strip_unwrap(x))
+        if s in set_forms:
+            return True
+        y = _strip_unwrap(fnorm.resolve(node, _strip_unwrap(x)))
+        return y is not x and fnorm.norm(node, y) in set_forms
+
+    rdefs = C.reaching_defs(cfg)
+    _MUT = ("append", "extend", "insert", "pop", "remove", "sort", "reverse", "clear", "__setitem__", "__delitem__")
+
+    def res(node, e):
+        """fnorm.resolve, continued through a list / comprehension bound once to a local that is never mutated
+        (FlowNorm does not substitute mutable displays)."""
+        for _ in range(4):
+            e = fnorm.resolve(node, e)
+            if not isinstance(e, ast.Name):
+                break
+            ds = rdefs.get(node.id, {}).get(e.id)
+            if not ds or len(ds) != 1:
+                break
+            (d,) = tuple(ds)
+            if d == C.PARAM_DEF:
+                break
+            v = assign_value(cfg.nodes[d], e.id)
+            if v is None:
+                break
+            touched = any(isinstance(x, ast.Attribute) and attr_path(x.value) == e.id and x.attr in _MUT
+                          for x in func_own_nodes(prh)) or any(
+                (e.id + "[]") in node_stores(m) for m in cfg.nodes) or any(
+                isinstance(x, ast.Delete) for x in func_own_nodes(prh))
+            if touched:
+                break
+            node, e = cfg.nodes[d], v
+        return e
+
+    def elements(node, e, depth=0):
+        """('all', None) when e denotes every element of the byte-range-set; ('partial', why) when it provably
+        denotes fewer / other elements; (None, why) when undecided."""
+        if depth > 4:
+            return (None, "nesting too deep")
+        e = res(node, e)
+        if isinstance(e, ast.Call) and isinstance(e.func, ast.Name) and e.func.id in ("list", "tuple", "iter") \
+                and len(e.args) == 1 and not e.keywords:
+            return elements(node, e.args[0], depth + 1)
+        if isinstance(e, ast.Call) and isinstance(e.func, ast.Attribute) and e.func.attr == "split":
+            sep = arg(e, 0, "sep")
+            # another separator / a maxsplit leaves ',' inside an element, which int() in parse_range refuses:
+            # such a header is ignored as a whole (allowed), so that is not a violation - but not decided here
+            if not (isinstance(sep, ast.Constant) and sep.value in (",", b",")):
+                return (None, "the byte-range-set is split at %s, not at ','" % (
+                    ast.unparse(sep) if sep is not None else "whitespace"))
+            ms = arg(e, 1, "maxsplit")
+            if ms is not None and not (isinstance(ms, ast.UnaryOp) and isinstance(ms.op, ast.USub)):
+                return (None, "the byte-range-set is split with maxsplit=%s" % ast.unparse(ms))
+            if not set_base(node, e.func.value):
+                return ("partial", "what is split at ',' is %s, not the byte-range-set behind 'bytes='" %
+                        fnorm.norm(node, e.func.value))
+            return ("all", None)
+        if isinstance(e, (ast.ListComp, ast.GeneratorExp)) and len(e.generators) == 1 \
+                and isinstance(e.generators[0].target, ast.Name) and not e.generators[0].ifs:
+            g = e.generators[0]
+            b = _strip_unwrap(e.elt)
+            if isinstance(b, ast.Name) and b.id == g.target.id:
+                return elements(node, g.iter, depth + 1)
+            return (None, "elements are transformed by %s" % ast.unparse(e.elt))
+        if isinstance(e, ast.Subscript):
+            return ("partial", "only %s of the byte-range-set is looked at" % ast.unparse(e))
+        if isinstance(e, (ast.List, ast.Tuple)):
+            return ("partial", "a fixed number of byte-range-specs (%s) is looked at" % ast.unparse(e))
+        return (None, "cannot tell which elements %s denotes" % ast.unparse(e))
+
+    def filter_ok(ifs, target):
+        """Only empty list elements may be skipped (RFC 7230 #rule); any other filter drops specs unvalidated."""
+        for t in ifs:
+            b = _strip_unwrap(t)
+            if not (isinstance(b, ast.Name) and b.id == target):
+                return False
+        return True
+
+    def returns_value(n):
+        return is_return(n) and n.ast.value is not None and not (
+            isinstance(n.ast.value, ast.Constant) and n.ast.value.value is None)
+
+    rv = cfg.find(returns_value)
+    if not rv:
+        raise AnchorVanished("parse_range_header returns no range list")
+    r.count(len(cfg.nodes))
+
+    def undecided(n, why):
+        raise AnalysisError("C40.10: cannot decide whether %s (L%d) holds parse_range of every byte-range-spec: %s" % (
+            src(prh, n.ast.value), n.ast.lineno, why))
+
+    def check_map(n, elt_call, target, it, ifs):
+        s = spec_of(elt_call, target)
+        if s is None:
+            undecided(n, "element expression %s" % ast.unparse(elt_call))
+        if s != "ok":
+            r.violation(prh, prh.loc(n.ast), s)
+            return
+        if not filter_ok(ifs, target):
+            r.violation(prh, prh.loc(n.ast), "byte-range-specs are filtered by `%s` before they are parsed: the ones "
+                        "left out are not validated, a bad one no longer invalidates the header" %
+                        " and ".join(ast.unparse(t) for t in ifs))
+            return
+        kind, why = elements(n, it)
+        if kind is None:
+            undecided(n, why)
+        if kind == "partial":
+            r.violation(prh, prh.loc(n.ast), "not every byte-range-spec of the header is parsed (%s): a malformed or "
+                        "inverted spec elsewhere in the set no longer makes the header ignored" % why)
+
+    for n in rv:
+        r.site(prh, n.ast, "range list returned")
+        raw = n.ast.value
+        # ---- a list filled in a loop
+        if isinstance(raw, ast.Name):
+            apps = [(m, c) for m in cfg.nodes if m.kind in ("stmt", "test") for c in node_calls(m)
+                    if call_tail(c) in ("append", "extend", "insert") and isinstance(c.func, ast.Attribute)
+                    and attr_path(c.func.value) == raw.id]
+            if apps:
+                _loop_built(r, prh, cfg, fnorm, n, raw.id, apps, spec_of, elements, returns_value, undecided)
+                continue
+        v = res(n, raw)
+        if isinstance(v, ast.Call) and isinstance(v.func, ast.Name) and v.func.id in ("list", "tuple") \
+                and len(v.args) == 1 and not v.keywords:
+            v = res(n, v.args[0])
+        if isinstance(v, (ast.ListComp, ast.GeneratorExp)):
+            if len(v.generators) != 1 or not isinstance(v.generators[0].target, ast.Name):
+                undecided(n, "comprehension shape")
+            g = v.generators[0]
+            check_map(n, v.elt, g.target.id, g.iter, g.ifs)
+        elif isinstance(v, ast.Call) and isinstance(v.func, ast.Name) and v.func.id == "map" and len(v.args) == 2:
+            f, it = v.args
+            if is_parse_range(f):
+                kind, why = elements(n, it)
+                if kind is None:
+                    undecided(n, why)
+                if kind == "partial":
+                    r.violation(prh, prh.loc(n.ast), "not every byte-range-spec of the header is parsed (%s): a "
+                                "malformed or inverted spec elsewhere in the set no longer makes the header ignored"
+                                % why)
+            elif isinstance(f, ast.Lambda) and len(f.args.args) == 1:
+                check_map(n, f.body, f.args.args[0].arg, it, [])
+            else:
+                undecided(n, "mapped function %s" % ast.unparse(f))
+        elif isinstance(v, (ast.List, ast.Tuple)):
+            # a fixed number of specs: complete only where the set was found to hold no ','
+            elts = v.elts
+            one = len(elts) == 1 and isinstance(elts[0], ast.Call) and is_parse_range(elts[0].func) \
+                and elts[0].args and set_base(n, elts[0].args[0])
+
+            def no_comma(a, lab):
+                f = fnorm.edge_fact(a, lab)
+                return bool(f) and f[0] == "not in" and f[1] in ("','", "b','") and f[2] in set_forms
+            if one and not find_path_avoiding(cfg, lambda m, _n=n: m is _n, gate_edge=no_comma):
+                continue
+            r.violation(prh, prh.loc(n.ast), "the range list returned is the fixed list %s: only that many "
+                        "byte-range-specs are parsed, a malformed or inverted spec further on in the set no longer "
+                        "makes the header ignored" % src(prh, v))
+        else:
+            undecided(n, "unrecognised construction")
+
+
+def _loop_built(r, prh, cfg, fnorm, ret, lname, apps, spec_of, elements, returns_value, undecided):
+    """`out = []; for x in <set>.split(','): out.append(parse_range(x.strip())); return out`."""
+    for m in cfg.nodes:
+        if lname in node_stores(m):
+            v = assign_value(m, lname)
+            empty = (isinstance(v, (ast.List, ast.Tuple)) and not v.elts) or (
+                isinstance(v, ast.Call) and isinstance(v.func, ast.Name) and v.func.id == "list" and not v.args)
+            if not empty:
+                undecided(ret, "%s is also bound to %s" % (lname, src(prh, m.ast)))
+    iters = [m for m in cfg.nodes if m.kind == "iter"]
+    for (m, c) in apps:
+        if call_tail(c) != "append" or len(c.args) != 1:
+            undecided(ret, "%s is filled by %s" % (lname, ast.unparse(c)))
+        # the loop whose variable is parsed here
+        loop = None
+        for it in iters:
+            if isinstance(it.ast.target, ast.Name) and spec_of(c.args[0], it.ast.target.id) == "ok":
+                loop = it
+        if loop is None:
+            names = [it.ast.target.id for it in iters if isinstance(it.ast.target, ast.Name)]
+            s = None
+            for nm in names:
+                s = s or spec_of(c.args[0], nm)
+            if isinstance(c.args[0], ast.Call) and isinstance(c.args[0].func, ast.Name) \
+                    and c.args[0].func.id == prh.nested["parse_range"].name:
+                r.violation(prh, prh.loc(m.ast), "%s is filled with %s outside a loop over the byte-range-set: not "
+                            "every byte-range-spec of the header is parsed" % (lname, ast.unparse(c.args[0])))
+                continue
+            undecided(ret, "%s is filled with %s" % (lname, ast.unparse(c.args[0])))
+        kind, why = elements(loop, loop.ast.iter)
+        if kind is None:
+            undecided(ret, why)
+        if kind == "partial":
+            r.violation(prh, prh.loc(loop.ast), "not every byte-range-spec of the header is parsed (%s): a malformed "
+                        "or inverted spec elsewhere in the set no longer makes the header ignored" % why)
+            continue
+        # every iteration parses its element; the list is returned only when the loop ran out
+        body = {d for (d, lab) in cfg.succ[loop.id] if lab == "iter"}
+        seen, todo, skipped, early = set(), list(body), None, None
+        while todo:
+            x = todo.pop()
+            if x in seen:
+                continue
+            seen.add(x)
+            nx = cfg.nodes[x]
+            if nx is loop:
+                continue
+            if returns_value(nx):
+                early = nx
+                continue
+            for (d, lab) in cfg.succ[x]:
+                if lab != "exc":
+                    todo.append(d)
+        seen2, todo = set(), list(body)
+        while todo:
+            x = todo.pop()
+            if x in seen2:
+                continue
+            seen2.add(x)
+            nx = cfg.nodes[x]
+            if nx is m:
+                continue
+            if nx is loop or returns_value(nx) or nx.kind == "exit":
+                skipped = nx
+                break
+            for (d, lab) in cfg.succ[x]:
+                if lab != "exc":
+                    todo.append(d)
+        if early is not None:
+            r.violation(prh, prh.loc(early.ast), "the range list is returned from inside the loop over the "
+                        "byte-range-set (or after leaving it early): the specs not yet reached are not validated")
+        elif skipped is not None:
+            r.violation(prh, prh.loc(loop.ast), "an iteration of the loop over the byte-range-set can pass without "
+                        "parse_range of its element (%s is not on every path through the body): that spec is not "
+                        "validated" % src(prh, m.ast))
+
+
+# ------------------------------------------------------------------ C40.11
+def _bind_args(call, params, skip=0):
+    """{param name: argument AST} for a call of a function with positional parameters `params` (after `skip`
+    leading positional arguments of the call); None when * / ** make the binding undecidable."""
+    if any(isinstance(a, ast.Starred) for a in call.args) or any(k.arg is None for k in call.keywords):
+        return None
+    out = {}
+    for i, a in enumerate(call.args[skip:]):
+        if i < len(params):
+            out[params[i]] = a
+    for k in call.keywords:
+        out[k.arg] = k.value
+    return out
+
+
+def _mutable_read_forwarding(r, idx):
+    MFV = "mutable.filenode:MutableFileVersion"
+    rd = idx.func(MFV + ".read")
+    rp = first_positional_params(rd)
+    dl = idx.func("mutable.retrieve:Retrieve.download")
+    dp = first_positional_params(dl)
+    if len(rp) < 3 or len(dp) < 3:
+        raise AnchorVanished("MutableFileVersion.read / Retrieve.download no longer take (consumer, offset, size)")
+    roles = ("consumer", "offset", "size")
+    rn = FlowNorm(rd)
+    # (a) read -> the serialized companion
+    hops = []
+    for n in rd.cfg().nodes:
+        for c in node_calls(n):
+            if call_tail(c) == "_do_serialized" and c.args and isinstance(c.args[0], ast.Attribute) \
+                    and attr_path(c.args[0].value) == "self":
+                inner = rd.cls.lookup(c.args[0].attr) if rd.cls is not None else None
+                if inner is not None:
+                    hops.append((n, c, inner, 1))
+            elif isinstance(c.func, ast.Attribute) and attr_path(c.func.value) == "self" and rd.cls is not None \
+                    and rd.cls.lookup(c.func.attr) is not None and c.func.attr != "_do_serialized" \
+                    and any(call_tail(x) == "download" for x in calls_in_func(rd.cls.lookup(c.func.attr))):
+                hops.append((n, c, rd.cls.lookup(c.func.attr), 0))
+    direct = [(n, c) for n in rd.cfg().nodes for c in node_calls(n) if call_tail(c) == "download"]
+    if not hops and not direct:
+        raise AnchorVanished("MutableFileVersion.read no longer hands the read to a companion method / Retrieve.download")
+
+    def check_download(fn, fnorm, want):
+        """want: role -> normal form (in fn) of the value that must arrive in Retrieve.download's parameter."""
+        found = 0
+        for n in fn.cfg().nodes:
+            for c in node_calls(n):
+                if call_tail(c) != "download" or not isinstance(c.func, ast.Attribute):
+                    continue
+                recv = fnorm.resolve(n, c.func.value)
+                if not (isinstance(recv, ast.Call) and call_tail(recv) == "Retrieve"):
+                    continue
+                found += 1
+                r.site(fn, c, "Retrieve.download")
+                b = _bind_args(c, dp)
+                if b is None:
+                    raise AnalysisError("C40.11: cannot bind the arguments of %s" % src(fn, c))
+                for i, role in enumerate(roles):
+                    a = b.get(dp[i])
+                    got = fnorm.norm(n, a) if a is not None else "<default>"
+                    if got != want[role]:
+                        r.violation(fn, fn.loc(c), "Retrieve.download is given %s=%s; the %s of MutableFileVersion.read "
+                                    "(carried by `%s` in %s) belongs there: a range read of a mutable file delivers "
+                                    "other bytes than the announced range" % (dp[i], got, role, want[role], fn.name))
+        return found
+    n_dl = 0
+    if direct:
+        n_dl += check_download(rd, rn, {role: rp[i] for i, role in enumerate(roles)})
+    for (n, c, inner, skip) in hops:
+        ip = first_positional_params(inner)
+        b = _bind_args(c, ip, skip)
+        if b is None:
+            raise AnalysisError("C40.11: cannot bind the arguments of %s" % src(rd, c))
+        r.site(rd, c, "hand-over to %s" % inner.name)
+        r.count(len(b))
+        want = {}
+        ok = True
+        for i, role in enumerate(roles):
+            carriers = [p for p, a in b.items() if rn.norm(n, a) == rp[i]]
+            if len(carriers) != 1 or carriers[0] not in ip:
+                r.violation(rd, rd.loc(c), "MutableFileVersion.read does not hand its %s (%s) to %s (arguments: %s)" % (
+                    role, rp[i], inner.name, ", ".join("%s=%s" % (p, rn.norm(n, a)) for p, a in b.items())))
+                ok = False
+            else:
+                want[role] = carriers[0]
+        if not ok:
+            continue
+        # nothing else may be bound to the companion's carrier of another role, and defaults must not replace them
+        got = check_download(inner, FlowNorm(inner), want)
+        if not got:
+            raise AnchorVanished("%s no longer calls Retrieve(..).download" % inner.qual)
+        n_dl += got
+    if not n_dl:
+        raise AnchorVanished("no Retrieve.download call behind MutableFileVersion.read")
 
 
 def _first_of_parse(p):
